@@ -121,6 +121,8 @@ def main():
     kw = dict(defaults=spec.get('defaults', []), args=['prog'] + spec['args'],
               script_parts=spec.get('script_parts', ['-m', 'zope.testrunner']), cwd=spec.get('child_cwd', spec['dir']),
               **({'warnings': spec['warnings']} if 'warnings' in spec else {}))
+    if spec.get('default_cwd'):
+        kw.pop('cwd')           # the entry point works out where the run was started
     via = spec.get('via', 'runner')
     reported = None             # what the entry point tells its caller (return value / exit status)
     if via == 'runner':
